@@ -16,6 +16,7 @@ Scopes
              Lengths are attached to splits, so two drawings of one tree carry the same lengths:
              identity-of-indiscernibles, child-order and seed-position invariance are all
              instances of "value == oracle".
+  random     seeded random pairs of 8-10 leaf trees (independent, or one leaf exchange apart).
   redraw-unifurcations  the same for drawings with a unifurcation inserted (incl. above the seed).
   triangle   all triples over representatives x 2 length functions, from a matrix of real calls.
   namespaces distinct TaxonNamespace objects -> TaxonNamespaceIdentityError from every function,
@@ -28,6 +29,9 @@ orders or for neither") and value symmetry; so when some non-seed edge has lengt
 demands are (a) the sole refusal accepted is the ValueError about a None edge length, (b) it is
 raised for both orders or neither, (c) if defined both ways the values agree.  When no non-seed
 length is missing a refusal is a violation.  A seed edge without length counts 0.
+Monitor names: <function>.<clause>; value failures on two-leaf unrooted trees carry the suffix
+@2-leaf-unrooted and everything found in the unifurcation scope the suffix @unifurcation, so that
+these two input classes can be triaged apart from the general case.
 Left out: trees with different leaf sets (normalisation is relative to each tree's own leaves),
 mixed rooting states, edge_weight_attr / value_type other than the defaults.
 """
